@@ -34,8 +34,18 @@ pub fn dce_expr(expr: Expr) -> (r: Expr) ensures r == dce_e(expr) { unimplemente
 // `s` keeps the evaluation of `v` and nothing else: `v` as an expression statement (calls, blocks) or `_ = v`
 pub open spec fn eff_stmt_ok(v: Expr, s: Stmt) -> bool {
     (s == Stmt::Expr(v) && (v is Call || v is Block))
-    || (s matches Stmt::Assignment { name, value } && name@ == "_"@ && value == v && !(v is Call || v is Block))
+    || (s matches Stmt::Assignment { name, value } && name@ == "_"@ && value == v)
 }
+// C02: Go accepts a call as a statement unless the callee is a value-only builtin or a conversion (`append(v, x)` / `len(v)` / `int32(n)` alone: "not used")
+pub open spec fn value_only_callee(n: Seq<char>) -> bool {
+    n == "append"@ || n == "cap"@ || n == "len"@ || n == "make"@ || n == "new"@ || n == "int8"@ || n == "int16"@ || n == "int32"@ || n == "int64"@
+    || n == "uint8"@ || n == "uint16"@ || n == "uint32"@ || n == "uint64"@ || n == "float32"@ || n == "float64"@ || n == "string"@
+}
+pub open spec fn stmt_callee_ok(f: Expr) -> bool { !(f matches Expr::Var { name, .. } && value_only_callee(name@)) }
+pub open spec fn go_expr_stmt_ok(s: Stmt) -> bool {
+    s matches Stmt::Expr(e) ==> (e is Block || (e matches Expr::Call { func, .. } && stmt_callee_ok(*func)))
+}
+#[verifier::external_body] pub fn str_eq(a: &str, b: &str) -> (r: bool) ensures r == (a@ == b@) { unimplemented!() }
 
 // THE RULE: what dead-code elimination may turn ONE statement into (`o`: the statements standing in its place, in order).
 // Every statement stays, with DCE applied inside it — except that a declaration / assignment whose variable is not needed
